@@ -1,16 +1,16 @@
 /-
   C16 — Any statement yields a result or an error — never a panic, never a hang.
 
-  Property theorems for the worker pool every statement runs on (`Model/Pool.lean`; helper lemmas in
-  `Lemmas/Pool.lean`).  All statements quantify over every pool size, every sequence of submitted jobs and
+  Part 1: property theorems for the worker pool every statement runs on (`Model/Pool.lean`; helper lemmas in
+  `Lemmas/Pool.lean`).  Part 2 (end of file): what the statement-level model of engine `fuzz` (`Model/Fuzz.lean`)
+  answers — the oracle of the correspondence.  All statements quantify over every pool size, every sequence of submitted jobs and
   every schedule (= every sequence of enabled steps) of the model; nothing is bounded.
   `Defects.none` is the intended pool, `{ panicKillsWorker := true }` the shipped worker loop.
 -/
 import AxVerif.Lemmas.Pool
-namespace AxVerif.Pool
-
-/-- the shipped worker loop -/
-def shipped : Defects := { panicKillsWorker := true }
+import AxVerif.Model.Fuzz
+namespace AxVerif.C16
+open AxVerif AxVerif.Pool
 
 /-! ### safety: holds in every reachable state, for every schedule, with or without the defect -/
 
@@ -115,7 +115,7 @@ theorem pool_quiescent_iff_measure_zero (n : Nat) (hn : 0 < n) (tr : List Step) 
   have hw := pool_workers_invariant n tr s hr
   unfold State.live at hw
   rw [quiescent_iff]
-  unfold measure
+  unfold Pool.measure
   constructor
   · intro ⟨hb, hq⟩
     rw [hb] at hw
@@ -140,7 +140,7 @@ theorem pool_every_job_answered (n : Nat) (hn : 0 < n) (tr : List Step) (s : Sta
     (s.resp.map (·.1)).count i = 1 ∧ response s i = some (respOf ((submitted tr)[i])) := by
   have h := inv_reachable hr
   have hm := (pool_quiescent_iff_measure_zero n hn tr s hr).mp hq
-  unfold measure at hm
+  unfold Pool.measure at hm
   have hq0 : s.queue = [] := List.eq_nil_of_length_eq_zero (by omega)
   have hb0 : s.busy = [] := List.eq_nil_of_length_eq_zero (by omega)
   have hc := count_allIds h i
@@ -246,4 +246,169 @@ example : ∃ s, run Defects.none (init 2)
 
 example : (∀ st ∈ [Step.take, Step.finish 0], st.internal = true) := by decide
 
-end AxVerif.Pool
+/-- **The shipped defect, exactly, for every schedule.**  With the shipped worker loop on a pool of `n` workers, once
+    the pool is quiescent the fate of every job is fixed by the submission order alone: job `i` is answered (with its
+    own answer) iff fewer than `n` panicking jobs were submitted before it; all other callers stay blocked.  No
+    schedule can do better or worse — which is why the model with the flag on predicts one definite line per case. -/
+theorem pool_shipped_schedule_independent (n : Nat) (tr : List Step) (s : State)
+    (hr : run shipped (init n) tr = some s) (hq : quiescent s = true)
+    (i : Nat) (hi : i < (submitted tr).length) :
+    response s i =
+      if panicsBefore (submitted tr) i < n then some (respOf ((submitted tr)[i])) else none := by
+  have h := invS_reachable hr
+  obtain ⟨t, ht, hfifo, hh⟩ := h.fifo
+  obtain ⟨hb, hqq⟩ := (quiescent_iff s).mp hq
+  have hperm := taken_perm h.base ht hfifo
+  rw [hb] at hperm
+  simp only [List.map_nil, List.append_nil] at hperm
+  have hnext := h.base.next_eq
+  rcases Nat.lt_or_ge i t with hlt | hge
+  · -- taken, hence (nothing is running) answered
+    have hmem : i ∈ s.resp.map (·.1) := hperm.mem_iff.mpr (List.mem_range.mpr hlt)
+    obtain ⟨p, hp, hpi⟩ := List.mem_map.mp hmem
+    have hp' : (i, p.2) ∈ s.resp := by rw [← hpi]; exact hp
+    obtain ⟨r', hr', _⟩ := response_of_mem hp'
+    obtain ⟨k, hk, hrk⟩ := response_kind h.base hr'
+    rw [List.getElem?_eq_getElem hi] at hk
+    cases hk
+    rw [if_pos (hh i hlt), hr', hrk]
+  · -- still queued: no worker is left, and `n` panicking jobs precede it
+    have hnot : i ∉ s.resp.map (·.1) := fun hm => by
+      have := List.mem_range.mp (hperm.mem_iff.mp hm)
+      omega
+    have hqne : s.queue ≠ [] := by
+      intro h0
+      rw [h0] at ht
+      simp only [List.length_nil, Nat.add_zero] at ht
+      omega
+    have hidle : s.idle = 0 := by
+      rcases hqq with h0 | h0
+      · exact absurd h0 hqne
+      · exact h0
+    have hw := h.base.workers
+    rw [hb, hidle] at hw
+    simp only [List.length_nil, Nat.add_zero, Nat.zero_add] at hw
+    have hpt := panics_taken h ht hfifo
+    rw [hb] at hpt
+    simp only [List.map_nil, List.countP_nil, Nat.add_zero] at hpt
+    have hmono := panicsBefore_mono (submitted tr) hge
+    rw [if_neg (by omega), response_none_of_not_mem hnot]
+
+/-- the two descriptions of the defect agree on a concrete run: pool of 2, jobs panic, ok, panic, ok, err -/
+example : outcomes (exec shipped 2 [.burst [.panic, .ok, .panic, .ok, .err]])
+    = [some .panicAsError, some .ok, some .panicAsError, none, none] := by decide
+
+/-! ## Part 2 — the statement-level oracle (engine `fuzz`)
+
+The model functions are total by construction (structural recursion on a depth budget and on the syntax tree): for
+every case line `Fuzz.stepLine` returns a line, and for a well-formed one it returns exactly one word per op. -/
+
+theorem fuzz_word_of_op (schema : List Fuzz.Table) (st : Fuzz.St) (op : Fuzz.Op) :
+    (Fuzz.stepOp schema st op).2 ∈ ["ok-or-error", "rows", "error"] := by
+  cases op with
+  | x b => simp [Fuzz.stepOp]
+  | q q =>
+    simp only [Fuzz.stepOp]
+    cases Fuzz.classify schema q st.tainted st.touched with
+    | none => simp
+    | some c => cases c <;> simp
+
+/-- One word per op, and every word is a result class or `ok-or-error` — the model never answers "panic", "hang" or
+    anything else, for any sequence of ops on any schema. -/
+theorem fuzz_one_word_per_op (schema : List Fuzz.Table) : ∀ (ops : List Fuzz.Op) (st : Fuzz.St),
+    (Fuzz.runOps schema st ops).length = ops.length ∧
+    ∀ w ∈ Fuzz.runOps schema st ops, w ∈ ["ok-or-error", "rows", "error"]
+  | [], st => by simp [Fuzz.runOps]
+  | o :: os, st => by
+    have ih := fuzz_one_word_per_op schema os (Fuzz.stepOp schema st o).1
+    simp only [Fuzz.runOps, List.length_cons]
+    refine ⟨by omega, ?_⟩
+    intro w hw
+    rcases List.mem_cons.mp hw with hw | hw
+    · subst hw; exact fuzz_word_of_op schema st o
+    · exact ih.2 w hw
+
+/-- The oracle for an arbitrary string offered as SQL: "a result or an error", whatever the bytes are; and from then
+    on nothing is predicted about later statements (the string may have changed anything). -/
+theorem fuzz_string_is_ok_or_error (schema : List Fuzz.Table) (st : Fuzz.St) (b : Bytes) :
+    (Fuzz.stepOp schema st (.x b)).2 = "ok-or-error" ∧ (Fuzz.stepOp schema st (.x b)).1.tainted = true := by
+  simp [Fuzz.stepOp]
+
+theorem fuzz_no_prediction_when_tainted (schema : List Fuzz.Table) (q : Fuzz.Q) (touched : List String) :
+    Fuzz.classify schema q true touched = none := by
+  simp [Fuzz.classify]
+
+/-- A statement on a table the schema does not have is an error. -/
+theorem fuzz_unknown_table_is_error (schema : List Fuzz.Table) (q : Fuzz.Q) (touched : List String)
+    (h : Fuzz.findTable schema q.table = none) : Fuzz.classify schema q false touched = some .error := by
+  simp [Fuzz.classify, h]
+
+/-- A statement that names a column its table does not have is an error. -/
+theorem fuzz_unknown_column_is_error (schema : List Fuzz.Table) (q : Fuzz.Q) (touched : List String) (t : Fuzz.Table)
+    (ht : Fuzz.findTable schema q.table = some t) (c : String) (hc : c ∈ q.cols) (hn : t.hasCol c = false) :
+    Fuzz.classify schema q false touched = some .error := by
+  have : (q.cols.any fun c => !t.hasCol c) = true := List.any_eq_true.mpr ⟨c, hc, by simp [hn]⟩
+  simp [Fuzz.classify, ht, this]
+
+/-- `rows` is predicted only for statements that are well bound: the table exists, every named column exists, and
+    there is no sub-query. -/
+theorem fuzz_rows_only_if_well_bound (schema : List Fuzz.Table) (q : Fuzz.Q) (tainted : Bool) (touched : List String)
+    (h : Fuzz.classify schema q tainted touched = some .rows) :
+    tainted = false ∧ ∃ t, Fuzz.findTable schema q.table = some t ∧ (∀ c ∈ q.cols, t.hasCol c = true) ∧ q.subs = [] := by
+  unfold Fuzz.classify at h
+  split at h
+  · cases h
+  · rename_i hnt
+    split at h
+    · cases h
+    · rename_i t ht
+      split at h
+      · cases h
+      · rename_i hcols
+        split at h
+        · cases h
+        · refine ⟨by simpa using hnt, t, ht, ?_, ?_⟩
+          · intro c hc
+            cases hh : t.hasCol c with
+            | true => rfl
+            | false => exact absurd (List.any_eq_true.mpr ⟨c, hc, by simp [hh]⟩) hcols
+          · cases q with
+            | sel tbl items wh group having order limit =>
+              simp only at h
+              split at h
+              · cases h
+              · rename_i hs
+                have : (Fuzz.Q.sel tbl items wh group having order limit).subs.isEmpty = true := by
+                  cases hh : (Fuzz.Q.sel tbl items wh group having order limit).subs.isEmpty with
+                  | true => rfl
+                  | false => simp [hh] at hs
+                exact List.isEmpty_iff.mp this
+            | ins tbl vals => simp only at h; split at h <;> cases h
+            | upd tbl col val wh => cases h
+            | del tbl wh => cases h
+
+
+/-- Integer `/ 0` and `% 0` in the select list of a plain SELECT over an untouched (hence non-empty) table is an error
+    — the spec side of the finding that the implementation panics there. -/
+theorem fuzz_division_by_zero_is_error (schema : List Fuzz.Table) (tbl : String) (items : Fuzz.EList)
+    (order : Option String) (touched : List String) (t : Fuzz.Table)
+    (ht : Fuzz.findTable schema tbl = some t)
+    (hcols : ∀ c ∈ (Fuzz.Q.sel tbl items none none none order none).cols, t.hasCol c = true)
+    (hsubs : (Fuzz.Q.sel tbl items none none none order none).subs = [])
+    (hu : tbl ∉ touched)
+    (hs : items.all (Fuzz.strictArith t) = true) (hd : items.any Fuzz.hasDiv0 = true) :
+    Fuzz.classify schema (.sel tbl items none none none order none) false touched = some .error := by
+  have h1 : ((Fuzz.Q.sel tbl items none none none order none).cols.any fun c => !t.hasCol c) = false := by
+    rw [List.any_eq_false]
+    intro c hc
+    simp [hcols c hc]
+  have ht' : Fuzz.findTable schema (Fuzz.Q.sel tbl items none none none order none).table = some t := ht
+  simp [Fuzz.classify, ht', h1, hsubs, hu, hs, hd]
+
+/-- the hypotheses are satisfiable: `SELECT a / 0 FROM t1` on `t1(id BIGINT, a INT)` -/
+example : ∃ t, Fuzz.findTable [⟨"t1", [("id", 'I'), ("a", 'i')]⟩] "t1" = some t ∧
+    (Fuzz.EList.cons (.bin "div" (.col "a") (.int 0)) .nil).all (Fuzz.strictArith t) = true ∧
+    (Fuzz.EList.cons (.bin "div" (.col "a") (.int 0)) .nil).any Fuzz.hasDiv0 = true :=
+  ⟨_, rfl, by decide, by decide⟩
+
+end AxVerif.C16
